@@ -213,6 +213,20 @@ impl Faults {
                 ));
             }
         }
+        if k >= 1 {
+            // the solver program cannot be started at all
+            rec.eval();
+            let bogus = satwrap::external(fake.dir.join("no-such-solver").to_string_lossy().to_string(), vec![]);
+            let shared = Shared::new(500);
+            let r = run_pc(pc, enc, a, &|| satwrap::factory_with(&shared, &bogus));
+            if let Ok(x) = r {
+                return Err(Failure::new(
+                    format!("C17/proc/{}/answer-produced-although-the-solver-cannot-be-started", name),
+                    format!("the clean run makes {} external calls; with a non-existent program the query returned {:?}", k, x),
+                ));
+            }
+            rec.class("proc-spawn-failure");
+        }
         Ok(())
     }
 
@@ -300,6 +314,22 @@ impl Faults {
                 ));
             }
         }
+        if k >= 1 {
+            rec.eval();
+            let mut args2 = args.clone();
+            if let Some(i) = args2.iter().position(|x| x == "--external-sat-solver") {
+                args2[i + 1] = fake.dir.join("no-such-solver").to_string_lossy().to_string();
+            }
+            let out = repobin::run_cli(&bin, &args2, Duration::from_secs(60));
+            let answers: Vec<String> = repobin::answer_lines(&out.stdout).into_iter().filter(|l| repobin::looks_like_answer(l)).collect();
+            if !out.timed_out && (out.code == Some(0) || !answers.is_empty()) {
+                return Err(Failure::new(
+                    format!("C17/cli/{}/answer-or-success-although-the-solver-cannot-be-started", problem),
+                    format!("the clean run makes {} external calls; with a non-existent program: exit {:?}, stdout {:?}", k, out.code, out.stdout),
+                ));
+            }
+            rec.class("cli-spawn-failure");
+        }
         Ok(())
     }
 }
@@ -313,7 +343,7 @@ impl Prop for Faults {
         "fault_enumeration"
     }
     fn rule(&self) -> String {
-        "For each generated (framework <=8 arguments, problem among the 21, selectable encoder, argument, certificate flag) and each generated dynamic-solver history (C08 generator), the clean run is checked against the reference semantics and its number k of SAT calls is recorded; then the query is re-run once for EVERY position j in 1..k with the failure at call j: SolvingResult::Unknown through a wrapper (library level, static and dynamic solvers), and the kinds {exit without output, non-zero exit, status without model, truncated model / truncated status, stray line, s UNKNOWN, abort} through the harness-owned external solver (ExternalSatSolver and `crustabri solve --external-sat-solver`). The call must unwind / the process must exit non-zero without an answer line. One evaluation = one (case, position, kind). Non-trivial: k >= 2 (the failure can hit a second-level call); distinct = (case, level, j, kind).".into()
+        "For each generated (framework <=8 arguments, problem among the 21, selectable encoder, argument, certificate flag) and each generated dynamic-solver history (C08 generator), the clean run is checked against the reference semantics and its number k of SAT calls is recorded; then the query is re-run once for EVERY position j in 1..k with the failure at call j: SolvingResult::Unknown through a wrapper (library level, static and dynamic solvers), and the kinds {exit without output, non-zero exit, status without model, truncated model / truncated status, stray line, s UNKNOWN, abort} through the harness-owned external solver, plus a solver program that cannot be started at all, (ExternalSatSolver and `crustabri solve --external-sat-solver`). The call must unwind / the process must exit non-zero without an answer line. One evaluation = one (case, position, kind). Non-trivial: k >= 2 (the failure can hit a second-level call); distinct = (case, level, j, kind).".into()
     }
     fn assumptions(&self) -> Vec<String> {
         vec![
